@@ -364,6 +364,12 @@ fn run_case(rt: &tokio::runtime::Runtime, case: &Value) -> Obs {
     let mut eff: Option<Comps> = None;
     let mut note = String::new();
     let before = sbx.snapshot();
+    // what happens in the directories AROUND the root while the operation runs (a file created next to the root and
+    // removed again before the call returns is invisible to the before / after comparison)
+    let mut watcher = Watcher::new(&sbx.outside_dirs());
+    if watcher.is_none() {
+        note = "no-inotify".into();
+    }
     match kind.as_str() {
         "read" | "write" | "write_plain" | "write_append" | "ls" | "grep" | "bash" => {
             let (name, args) = match kind.as_str() {
@@ -743,6 +749,25 @@ fn run_case(rt: &tokio::runtime::Runtime, case: &Value) -> Obs {
         _ => {}
     }
     let _ = std::env::set_current_dir("/");
+    if let Some(w) = watcher.as_mut() {
+        let evs = w.drain();
+        if !evs.is_empty() {
+            let last = sbx.snapshot();
+            let stays: Vec<Change> = diff(&before, &last).into_iter().filter(|c| !is_ws(&c.path)).collect();
+            // a change that is still there is reported by the comparison of the snapshots (classes outside_*)
+            if stays.is_empty() && !harness_touches_outside(&kind) {
+                let mut seen: Vec<String> = vec![];
+                for (what, p) in &evs {
+                    let rel = p.strip_prefix(&sbx.top).map(|x| x.to_string_lossy().to_string()).unwrap_or_else(|_| p.to_string_lossy().to_string());
+                    let e = format!("{what} {rel}");
+                    if !seen.contains(&e) {
+                        seen.push(e);
+                    }
+                }
+                st.viol.push((format!("{kind} '{}': outside the workspace root while the call ran (gone again afterwards): {}", short(&raw), seen.join("; ")), "outside_touched_transiently".into()));
+            }
+        }
+    }
     if must_refuse(&kind, &raw, &root_s) {
         let refused = match model_kind(&kind) {
             4 | 5 => verdict % 10 != V_OK,
@@ -753,6 +778,13 @@ fn run_case(rt: &tokio::runtime::Runtime, case: &Value) -> Obs {
         }
     }
     Obs { root: root_s, raw, verdict, out, eff, viol: st.viol, note }
+}
+
+/// kinds in which the HARNESS itself writes next to the root between the two snapshots (planted stores, edits of the
+/// sentinels between create and rewind)
+fn harness_touches_outside(kind: &str) -> bool {
+    let _ = kind;
+    false
 }
 
 fn short(s: &str) -> String {
